@@ -18,6 +18,25 @@ def gen_split(wd):
             raise RuntimeError("%s: unexpected prologue" % fn)
         out += "static EbErrorType %s(%s) {%s\n    return return_error;\n}\n" % (a, sig_a, first)
         out += "static EbErrorType %s(%s) {\n    EbErrorType return_error = EB_ErrorNone;%s\n}\n" % (b, sig_b, second)
+    # svt_fifo_shutdown split verbatim after each mutex release / semaphore post: the shutdown thread's pieces are scheduler steps
+    body = slicer.function(src, "svt_fifo_shutdown")
+    body = body[body.index("{") + 1:body.rindex("}")]
+    pieces, cur_piece = [], []
+    for l in body.split("\n"):
+        if l.strip().startswith("return "):
+            continue
+        cur_piece.append(l)
+        if "svt_release_mutex(" in l or "svt_post_semaphore(" in l:
+            pieces.append("\n".join(cur_piece)); cur_piece = []
+    if cur_piece and any(x.strip() and not x.strip().startswith("//") for x in cur_piece):
+        pieces.append("\n".join(cur_piece))
+    if not 2 <= len(pieces) <= 3:
+        raise RuntimeError("svt_fifo_shutdown: unexpected shape (%d pieces)" % len(pieces))
+    out += "#define FIFO_SHUTDOWN_PIECES %d\nstatic void fifo_shutdown_piece(EbFifo *fifo_ptr, int piece) {\n    EbErrorType return_error = EB_ErrorNone; (void)return_error;\n" % len(pieces)
+    for i, pc in enumerate(pieces):
+        pc = "\n".join(x for x in pc.split("\n") if "EbErrorType return_error" not in x)
+        out += "    if (piece == %d) {\n%s\n    }\n" % (i, pc)
+    out += "}\n"
     open(os.path.join(wd, "c23_split.inc"), "w").write(out)
 S = "Source/Lib/Common/Codec/EbSystemResourceManager.c:"
 F = [S + f for f in ("svt_system_resource_ctor", "svt_get_empty_object", "svt_post_full_object", "svt_get_full_object",
@@ -36,8 +55,14 @@ def mk(name, nobj, ncons, k, to=900):
                  unwind=4, unwindset=["harness.0:%d" % (k + 1)], funcs=F, timeout=to, mem_gb=24,
                  bound="%d object(s), 1 producer, %d consumer(s), shutdown thread, %d scheduler steps (each step: any enabled half-operation of any thread), references 0..2, blocking and polling gets" % (nobj, ncons, k),
                  what="exclusive hand-out, no loss/duplication, posting order, no lost wake-up, release at last reference, shutdown wakes waiters, no write after publication")
+def mk_sd(name, nobj, ncons, k, to=900):
+    q = mk(name, nobj, ncons, k, to)
+    q.defines = q.defines + ["SPLIT_SHUTDOWN=1"]
+    q.bound += "; svt_fifo_shutdown split after its mutex release / semaphore post, each piece a scheduler step"
+    q.what = "as above, with consumers running between the pieces of the shutdown: a woken consumer never finds an empty fifo without the shutdown flag"
+    return q
 def queries(tier):
-    qs = [mk("srm_1obj_2cons_k6", 1, 2, 6, 1500), mk("srm_2obj_1cons_k6", 2, 1, 6, 1500)]
+    qs = [mk("srm_1obj_2cons_k6", 1, 2, 6, 1500), mk("srm_2obj_1cons_k6", 2, 1, 6, 1500), mk_sd("srm_1obj_1cons_k5_split_shutdown", 1, 1, 5, 1500)]
     if tier == "thorough":
         qs += [mk("srm_1obj_2cons_k7", 1, 2, 7, 3000), mk("srm_2obj_1cons_k7", 2, 1, 7, 3000)]
     return qs
